@@ -22,16 +22,19 @@ import (
 
 // ---- classification rule (documented in docs/C15.md) ----
 // A location of (named) type []byte / element of [][]byte is
-//   region  : StartKey/EndKey of metapb.Region or errorpb.KeyNotInRegion (memcomparable region bounds)
-//   bucket  : errorpb.BucketVersionNotMatch.Keys (memcomparable bucket bounds)
-//   rstart / rend : Start/End of coprocessor.KeyRange; any field named StartKey / EndKey
-//   key     : field name contains "Key", or is PrimaryLock, Primary, Secondaries
-//   value   : everything else (Value, Values, ShortValue, PreviousValue, Data, EncodedPlan, Iv, ...)
+//
+//	region  : StartKey/EndKey of metapb.Region or errorpb.KeyNotInRegion (memcomparable region bounds)
+//	bucket  : errorpb.BucketVersionNotMatch.Keys (memcomparable bucket bounds)
+//	rstart / rend : Start/End of coprocessor.KeyRange; any field named StartKey / EndKey
+//	key     : field name contains "Key", or is PrimaryLock, Primary, Secondaries
+//	value   : everything else (Value, Values, ShortValue, PreviousValue, Data, EncodedPlan, Iv, ...)
+//
 // Not walked at all (documented exclusions):
-//   R1 fields of type *kvrpcpb.Context (context-bearing),
-//   R2 fields marked [deprecated = true] in the protobuf descriptor (the client never populates them),
-//   R3 on the request side, sub-messages of type kvrpcpb.KeyError (error reports produced by the server;
-//      they only occur inside request messages because KvPair is shared between requests and responses).
+//
+//	R1 fields of type *kvrpcpb.Context (context-bearing),
+//	R2 fields marked [deprecated = true] in the protobuf descriptor (the client never populates them),
+//	R3 on the request side, sub-messages of type kvrpcpb.KeyError (error reports produced by the server;
+//	   they only occur inside request messages because KvPair is shared between requests and responses).
 func classify(l *leaf) string {
 	o, f := l.Owner, l.Field
 	switch {
@@ -107,7 +110,9 @@ var idxRe = regexp.MustCompile(`\[\d+\]`)
 
 func normPath(p string) string { return idxRe.ReplaceAllString(p, "[]") }
 
-func isBytesLike(t reflect.Type) bool { return t.Kind() == reflect.Slice && t.Elem().Kind() == reflect.Uint8 }
+func isBytesLike(t reflect.Type) bool {
+	return t.Kind() == reflect.Slice && t.Elem().Kind() == reflect.Uint8
+}
 
 func setBytes(v reflect.Value, b []byte) {
 	if b == nil {
@@ -437,7 +442,7 @@ func observeClip(row *catRow, ci *cmdInfo, c *kcodec, fc *kcodec) string {
 		mk(nil, cat(p, "c")),
 		mk(cat(p, "x"), nil),
 		mk(cat(be32p(p, -3), "q"), c.pfx), // ends exactly at the prefix: outside
-		mk(c.end, cat(c.end, "zz")),      // starts exactly at the end key: outside
+		mk(c.end, cat(c.end, "zz")),       // starts exactly at the end key: outside
 	}
 	want := [][2]string{{"a", "m"}, {"", ""}, {"", "c"}, {"x", ""}}
 	m := reflect.New(ci.RespType.Elem())
